@@ -634,6 +634,11 @@ class Interp:
                     self.heap[nm] = cl
                     selfv = ("ref", ("H", nm, ()))
                 return Some(self.call_body(cl[1], [selfv], depth + 1))
+            if cl is not None and cl[0] == "fn":
+                try:
+                    return Some(self.apply(args[1], [], depth))
+                except Unsupported:
+                    return Some(Tok("%s()" % cl[1].split("::")[-1]))
             return Some(TOP)
         if name in ("not",) and len(args) == 1 and is_int(d0):
             return Int(1 - d0[1])
@@ -684,6 +689,14 @@ class Interp:
                 return a0
             return a0 if a0 is not None else TOP
         if name in ("into", "from") and len(args) == 1:
+            # a conversion implemented in this crate is evaluated; foreign conversions (From<[u8;32]> for Hash, ...) carry the value
+            for pth in (res_path, path):
+                lb = self.f.bodies.get(pth)
+                if lb is not None and not lb.rec.get("derived") and d0 is not None and d0[0] != "tok":
+                    try:
+                        return self.call_body(pth, args, depth + 1)
+                    except Unsupported:
+                        break
             return a0
         # --- closures
         if name in ("call", "call_mut", "call_once") and len(args) == 2:
